@@ -2,7 +2,7 @@
    proof/C14_Proofs.v on top of proof/C01_Proofs_*.v. *)
 From QV.lib Require Import Prelude.
 From QV.model Require Import C01_Model.
-From QV.proof Require Import C01_Proofs_RT C14_Proofs.
+From QV.proof Require Import C01_Proofs_RT C01_Proofs_Store C14_Proofs C14_Proofs_Store.
 From Coq Require Import String.
 Local Open Scope string_scope.
 Local Open Scope list_scope.
@@ -64,6 +64,45 @@ Theorem C14_skip_absent_names_harmless :
 Proof. exact skip_absent_names. Qed.
 Print Assumptions C14_skip_absent_names_harmless.
 
+(* the same through isinstance, attribute by attribute: the loaded object has exactly the names of
+   the attributes that are NOT an instance of a listed type, where `inst_any x st` holds iff some
+   listed type is in the MRO of type(x) or is an abstract base class (numbers.*,
+   collections.abc.{Sequence,Mapping,Set,Mutable*}) of which type(x) is a virtual subclass *)
+Theorem C14_skip_types_names :
+  forall st m c l, wf_obj (VObj m c l) = true ->
+    exists l', load_file [] [] (save_file [] st (VObj m c l)) = RVal (VObj m c l') /\
+               forall k, In k (map fst l') <-> exists x, In (k, x) l /\ inst_any x st = false.
+Proof. exact skip_types_names. Qed.
+Print Assumptions C14_skip_types_names.
+
+Theorem C14_isinstance_table :
+  forall v st, (inst_any v st = true <-> exists t, In t st /\ (In t (types_of v) \/ In t (abcs_of v))) /\
+               (forall t, In t (abcs_of v) -> In t abc_domain).
+Proof. intros v st. split; [apply inst_any_iff | apply abcs_in_domain]. Qed.
+Print Assumptions C14_isinstance_table.
+
+(* skipping by type at LOAD time (not in the property text; the code does it by exact type, and
+   never for JSON-attribute values or random generators): prune_load [] ust of the normal form *)
+Theorem C14_skip_types_load :
+  forall ust v, wf_obj v = true -> load_file [] ust (save_file [] [] v) = RVal (prune_load [] ust (norm v)).
+Proof. intros ust v H. exact (load_skip_plain_file [] ust v H). Qed.
+Print Assumptions C14_skip_types_load.
+
+(* stores written with skip lists have unique member names too, so everything above holds for the
+   directory store and the zip archive alike *)
+Theorem C14_skip_both_stores :
+  forall usn ust sn st v, wf_obj v = true ->
+    let t := save_file sn st v in
+    wf_node t = true /\
+    unflatten (depth t) (unzip_store (zip_store (flatten t))) = Some t /\
+    unflatten (depth t) (flatten t) = Some t /\
+    load_file usn ust t =
+    RVal (prune_load (usn ++ sn) (ust ++ filter (fun t => negb (mem t ust)) st) (norm (prune_save sn st v))).
+Proof.
+  intros usn ust sn st v H t. split; [exact (wf_node_save_skip sn st v H) | exact (skip_both_stores usn ust sn st v H)].
+Qed.
+Print Assumptions C14_skip_both_stores.
+
 (* non-vacuity: a depth-3 attribute-nested graph using every constructor satisfies the hypotheses;
    a skip list with names at two depths (and one absent name) really removes attributes *)
 Example C14_nonvacuous_wf : wf_obj ex_graph_attr = true /\ attr_nested ex_graph_attr = true /\ wf_obj ex_graph = true.
@@ -75,3 +114,30 @@ Example C14_nonvacuous_skip :
 Proof. vm_compute. split; reflexivity. Qed.
 Example C14_nonvacuous_absent : forall k, In k (all_names ex_graph_attr) -> mem k (["zz"] ++ ["nope"]) = false.
 Proof. intros k H. vm_compute in H. repeat (destruct H as [<-|H]; [reflexivity|]). destruct H. Qed.
+(* abstract base classes: numbers.Number removes the int, bool, float and real NumPy-scalar
+   attributes and the complex one (virtual subclasses), nothing else; at load time the same list
+   removes nothing (exact type only) *)
+Example C14_nonvacuous_abc :
+  match load_file [] [] (save_file [] ["numbers.Number"] ex_graph_attr) with
+  | RVal (VObj _ _ l) => forallb (fun k => negb (mem k (map fst l))) ["b"; "i"; "f"; "np"; "z"]
+                         && forallb (fun k => mem k (map fst l)) ["n"; "s"; "p"; "a"; "t"; "l"; "nl"; "sub"; "rc"]
+  | _ => false end = true
+  /\ res_eqb (load_file [] ["numbers.Number"] (save_file [] [] ex_graph_attr)) (RVal (norm ex_graph_attr)) = true.
+Proof. vm_compute. split; reflexivity. Qed.
+(* load-time type skipping is by exact type: the base class removes the nested object at save time only *)
+Example C14_load_types_exact :
+  res_eqb (load_file [] ["quantem.core.io.serialize.AutoSerialize"] (save_file [] [] ex_graph_attr)) (RVal (norm ex_graph_attr)) = true
+  /\ match load_file [] [] (save_file [] ["quantem.core.io.serialize.AutoSerialize"] ex_graph_attr) with
+      | RVal (VObj _ _ l) => negb (mem "sub" (map fst l)) | _ => false end = true
+  /\ match load_file [] ["harness.c01_classes.NodeB"; "numpy.ndarray"] (save_file [] [] ex_graph_attr) with
+      | RVal (VObj _ _ l) => negb (mem "sub" (map fst l)) && negb (mem "a" (map fst l)) && mem "i" (map fst l) | _ => false end = true.
+Proof. vm_compute. repeat split. Qed.
+(* the attr_nested hypothesis of C14_skip_exact / C14_skip_save_eq_load cannot be dropped: an object
+   inside a list is pruned by save(skip=names) but not by load(skip=names) (the container decoder
+   calls _recursive_load without skip lists) - outside the property's quantifier, recorded by the
+   check as observed_asymmetry *)
+Example C14_save_eq_load_needs_attr_nested :
+  let v := VObj "m" "C" [("l", VList [VObj "m" "D" [("a", VInt 1); ("b", VStr "s")]; VStr "t"])] in
+  wf_obj v = true /\ attr_nested v = false /\
+  res_eqb (load_file ["a"] [] (save_file [] [] v)) (load_file [] [] (save_file ["a"] [] v)) = false.
+Proof. vm_compute. repeat split. Qed.
